@@ -270,7 +270,7 @@ def plan(tier):
         return [
             ([Config(l, s, 'S') for l in langs for s in (z, (1, 1, 1, 1))], [('prng', 1), ('prng', 2)], 1, 8, 1),
             ([Config(l, z, 'S') for l in langs], [('prng', 3)], 0, 1, 2),
-            ([Config(l, z, 'D') for l in langs], [('prng', c) for c in range(1, 5)], 0, 1, 1),
+            ([Config(l, z, lim) for l in langs for lim in ('M', 'D')], [('prng', c) for c in range(1, 25)] + ['first', 'alt'], 0, 1, 1),
         ]
     sw = [(a, b, c, d) for a in (0, 1) for b in (0, 1) for c in (0, 1) for d in (0, 1)]
     pol = ['first', 'last', 'alt'] + [('prng', c) for c in range(1, 9)]
